@@ -92,7 +92,7 @@ func c20TermOf(info *types.Info, e ast.Expr) Term {
 
 // pathTerm: the canonical access path of e in the current activation (aliases of the activation applied).
 func (x *c20Exec) pathTerm(e ast.Expr) Term {
-	t := c20TermOf(x.info, e)
+	t := x.derefTerm(e, 0)
 	for from, to := range x.alias {
 		if t.ID == from || strings.HasPrefix(t.ID, from+".") {
 			t.ID = to + t.ID[len(from):]
@@ -357,6 +357,9 @@ func (x *c20Exec) expandAlts(st *c20State, alts [][]c20Leaf) [][]c20Leaf {
 		for _, l := range alt {
 			var sub [][]c20Leaf
 			if l.e != nil && l.tag == nil && l.bv == nil {
+				sub = x.structCmpAlts(st, l.e, l.pol) // A == B over struct values: field by field (c20ctx.go)
+			}
+			if sub == nil && l.e != nil && l.tag == nil && l.bv == nil {
 				switch unparen(l.e).(type) {
 				case *ast.Ident, *ast.SelectorExpr:
 					if tv, ok := x.info.Types[unparen(l.e)]; !ok || tv.Value == nil {
@@ -444,6 +447,10 @@ const c20MaxHelperNodes = 240
 const c20MaxHelperDepth = 4
 
 type c20HelperInfo struct {
+	lit    *ast.FuncLit     // a local closure (c20ctx.go); fi is nil then
+	g      *FG              // its graph
+	fn     *types.Func      // nil for a closure
+	sig    *types.Signature // of the function or the literal
 	fi     *FuncInfo
 	ok     bool
 	pure   bool // assigns only to its own variables
@@ -579,6 +586,7 @@ func (x *c20Exec) helperInfo(fn *types.Func) *c20HelperInfo {
 		return true
 	})
 	h.fi, h.ok = fi, true
+	h.fn, h.sig = fn, sig
 	return h
 }
 
@@ -607,10 +615,10 @@ func (x *c20Exec) helperCalls(n ast.Node) []*ast.CallExpr {
 				}
 			case *ast.CallExpr:
 				fn := calleeOf(x.info, t)
-				if h := x.helperInfo(fn); h != nil && (!guarded || h.pure) {
+				if h := x.calleeHelper(t); h != nil && (!guarded || h.pure) {
 					onStack := false
 					for _, s := range x.stack {
-						if s == fn {
+						if s == fn && fn != nil {
 							onStack = true
 						}
 					}
@@ -645,12 +653,15 @@ func (x *c20Exec) resolveCalls(st *c20State, calls []*ast.CallExpr, k func(*c20S
 // execHelper runs the callee of call from state st; every path through it that returns continues with k.
 func (x *c20Exec) execHelper(st *c20State, call *ast.CallExpr, k func(*c20State)) {
 	fn := calleeOf(x.info, call)
-	h := x.helperInfo(fn)
+	h := x.calleeHelper(call)
 	if h == nil {
 		k(st)
 		return
 	}
-	gc := x.c.P.Graph(h.fi)
+	gc := h.g
+	if h.fi != nil {
+		gc = x.c.P.Graph(h.fi)
+	}
 	if gc == nil || len(gc.Blocks) == 0 {
 		k(st)
 		return
@@ -699,6 +710,19 @@ func (x *c20Exec) execHelper(st *c20State, call *ast.CallExpr, k func(*c20State)
 	}
 	// enter
 	saveG, saveAlias, saveDisp, saveStack := x.g, x.alias, x.aliasDisp, x.stack
+	if h.lit != nil {
+		// a closure sees the variables of the function around it: the aliases of that activation stay in force
+		for k2, v2 := range saveAlias {
+			if _, own := newAlias[k2]; !own {
+				newAlias[k2] = v2
+			}
+		}
+		for k2, v2 := range saveDisp {
+			if _, own := newDisp[k2]; !own {
+				newDisp[k2] = v2
+			}
+		}
+	}
 	enter := func() {
 		x.g, x.alias, x.aliasDisp = gc, newAlias, newDisp
 		x.stack = append(append([]*types.Func(nil), saveStack...), fn)
@@ -735,7 +759,7 @@ func (x *c20Exec) execHelper(st *c20State, call *ast.CallExpr, k func(*c20State)
 			x.bindKey(st, fmt.Sprintf("%p", o), x.newVal(st, z))
 		}
 	}
-	sig := fn.Type().(*types.Signature)
+	sig := h.sig
 	nres := sig.Results().Len()
 	finish := func(st2 *c20State, res []*c20Val) {
 		if st2.callRes == nil {
